@@ -5,5 +5,5 @@ set -e
 cd "$(dirname "$0")"
 /venv/bin/python tools/extract.py >/dev/null
 cd lean
-lake build Supv $(ls run | sed -n "s/^C\([0-9]*\)\.lean$/drv_c\1/p")
+lake build Supv $(ls run | sed -n 's/^\(.*\)\.lean$/drv_\1/p' | tr 'A-Z' 'a-z')
 echo "setup ok"
